@@ -26,7 +26,7 @@ def plan(tier):
             {"fam": "annot", "trace": "IntervalIndexTrace"},
             {"fam": "ivbig", "trace": "IntervalIndexTrace", "shards": 4},
         ],
-        "required_obligations": ["tlc_behaviours_replayed", "ascending", "descending", "many_equal_starts",
+        "required_obligations": ["annot_lengths_beyond_2p32", "tlc_behaviours_replayed", "ascending", "descending", "many_equal_starts",
                                  "large_tree", "from_iter", "query_unindexed_refused",
                                  "insert_after_index_then_refused", "reindexed",
                                  "interior_levels_above_leaf_level", "query_absent_refid", "empty_tree_indexed_and_queried", "tree_copied_mid_history", "map_copied_mid_history",
